@@ -340,6 +340,12 @@ class BitVector(_PrimitiveType, metaclass=_BitVector):
         if isinstance(other, str):
             other = BitVector[len(other)](other)
         else:
+            from ._type_qualifier import TypeQualifier
+
+            if isinstance(other, TypeQualifier):
+                # constant == run-time value, handled by the reflected operator
+                return NotImplemented
+
             assert isinstance(other, BitVector)
 
             from ._signed import Signed
@@ -360,7 +366,12 @@ class BitVector(_PrimitiveType, metaclass=_BitVector):
 
     @_intrinsic
     def __ne__(self, other: BitVector) -> bool:
-        return not self.__eq__(other)
+        result = self.__eq__(other)
+
+        if result is NotImplemented:
+            return NotImplemented
+
+        return not result
 
     @_intrinsic
     def __matmul__(self, rhs: Bit | BitVector) -> BitVector:
